@@ -87,6 +87,8 @@ def cases(tier, seed):
             out.append(dict(kind='exp-ndarray', cfg=cfg, ka=[k]))
             out.append(dict(kind='exp-ndarray-elementwise', cfg=cfg, ka=[k]))
         # exp of python-float 2-blades a ^ b (they square to a scalar only up to rounding residue) against the power series
+        if d >= 2:
+            out.append(dict(kind='exp-float-scaled', cfg=cfg))
         if d >= 3:
             out.append(dict(kind='exp-float-blade', cfg=cfg))
         # norm / normalized on CONCRETE python floats and numpy scalars (the type-dispatching numeric paths), every sign of normsq
@@ -126,6 +128,8 @@ def run_case(desc, V):
         return _run_exp_float_blade(desc)
     if kind == 'exp-ndarray-elementwise':
         return _run_exp_ndarray_elementwise(desc)
+    if kind == 'exp-float-scaled':
+        return _run_exp_float_scaled(desc)
     alg = get_alg(desc['cfg'])
     km = kmap(alg)
     x = mv(alg, V, 'x', desc['ka'])
@@ -250,6 +254,65 @@ def _run_exp_float_blade(desc):
             if not concrete_equal(complex(got.get(k_, 0)), complex(series.get(k_, 0)), tol=1e-8):
                 claims.append(Fail(f'exp-float-blade[{trial},{k_}]', f'exp(a ^ b) has {got.get(k_, 0)!r} on blade {k_}, the power series {series.get(k_, 0)!r}', fkey=fkey))
                 break
+    return claims
+
+
+def _run_exp_float_scaled(desc):
+    """concrete floats (sampling, stated as such): x = alpha * N + beta * B with a null vector N (a null generator, or e_i + e_j of
+    opposite squares) and a generator B orthogonal to it squares EXACTLY to beta^2 B^2 in floating point, whatever alpha is: exp(x)
+    is the closed form of that square also when alpha is 1e6 .. 1e9 times beta (a rounding tolerance must not eat the square),
+    and for a numpy batch that holds a small and a large alpha next to each other."""
+    import math
+    import numpy as np
+    from ..core import concrete_equal
+    alg = get_alg(desc['cfg'])
+    sig = [int(v) for v in alg.signature]
+    gens = [1 << i for i in range(alg.d)]
+    claims = [Note('nontrivial', ''), Eq('reached', 1, 1)]
+    nulls = [((g,), (1.0,)) for g, s_ in zip(gens, sig) if s_ == 0]
+    pos = [g for g, s_ in zip(gens, sig) if s_ == 1]
+    neg = [g for g, s_ in zip(gens, sig) if s_ == -1]
+    if pos and neg:
+        nulls.append(((pos[0], neg[0]), (1.0, 1.0)))
+    beta = 0.75
+    for nkeys, ncoef in nulls:
+        for B, sB in zip(gens, sig):
+            if B in nkeys:
+                continue
+            l = beta
+            c0, s0 = (math.cosh(l), math.sinh(l) / l) if sB > 0 else ((1.0, 1.0) if sB == 0 else (math.cos(l), math.sin(l) / l))
+            # (for e_i + e_j the square alpha^2 - alpha^2 + beta^2 is exact only while beta^2 fits below alpha^2: alpha <= 2e6)
+            for alpha in ((1.0, 2e6, 3e9) if len(nkeys) == 1 else (1.0, 2e6)):
+                keys = tuple(nkeys) + (B,)
+                vals = [alpha * c for c in ncoef] + [beta]
+                fkey = 'exp|float|scaled-coefficients'
+                try:
+                    got = coeffs(alg.multivector(keys=keys, values=vals).exp())
+                except Exception as e:  # noqa
+                    claims.append(Fail(f'exp-scaled[{keys},{alpha}]:raises', f'exp() of {dict(zip(keys, vals))} raised {type(e).__name__}: {str(e)[:80]}', fkey=fkey + '|raises'))
+                    continue
+                want = {0: c0, **{k_: s0 * v_ for k_, v_ in zip(keys, vals)}}
+                for k_ in set(want) | set(got):
+                    if not concrete_equal(complex(got.get(k_, 0)), complex(want.get(k_, 0)), tol=1e-9):
+                        claims.append(Fail(f'exp-scaled[{keys},{alpha},{k_}]', f'exp() of {dict(zip(keys, vals))} (square {sB * beta * beta} exactly) has {got.get(k_, 0)!r} on blade {k_}, the closed form {want.get(k_, 0)!r}', fkey=fkey))
+                        break
+            # a batch holding a small and a large alpha
+            al = np.array([1.0, 2e6])
+            keys = tuple(nkeys) + (B,)
+            vals = [al * c for c in ncoef] + [np.array([beta, beta])]
+            fkey = 'exp|ndarray|scaled-coefficients'
+            try:
+                got = coeffs(alg.multivector(keys=keys, values=vals).exp())
+            except Exception as e:  # noqa
+                claims.append(Fail(f'exp-scaled-batch[{keys}]:raises', f'exp() of a batch with coefficients of very different size raised {type(e).__name__}: {str(e)[:80]}', fkey=fkey + '|raises'))
+                continue
+            for i_ in range(2):
+                want = {0: c0, **{k_: s0 * float(np.broadcast_to(v_, (2,))[i_]) for k_, v_ in zip(keys, vals)}}
+                for k_ in set(want) | set(got):
+                    g_ = complex(np.broadcast_to(np.asarray(got.get(k_, 0)), (2,))[i_])
+                    if not concrete_equal(g_, complex(want.get(k_, 0)), tol=1e-9):
+                        claims.append(Fail(f'exp-scaled-batch[{keys},{i_},{k_}]', f'exp() of a batch: entry {i_} has {g_!r} on blade {k_}, the closed form {want.get(k_, 0)!r}', fkey=fkey))
+                        break
     return claims
 
 
